@@ -145,4 +145,23 @@ PROPS['C13'] = {
                   'contract: bounded only.',
 }
 
+PROPS['C17'] = {
+    'contracts': ['contracts.fcsmeta:NewSample', 'contracts.fcsmeta:ParseTime', 'contracts.fcsmeta:ParseDate',
+                  'contracts.fcsmeta:AcquisitionTime'],
+    'bounded': True,
+    'level': 'other',
+    'timeout_ms': 8000,
+    'explanation': 'Proved for an arbitrary (symbolic) keyword map with the required keywords well-formed and a symbolic number of parameters: '
+                   'FCSData.__new__ never raises whatever the optional keywords contain; time step = $TIMESTEP else TIMETICKS/1000 else None '
+                   '(unparseable -> None); start/end time = parsed time, combined with the date iff a date parsed, else None; per channel '
+                   '(map-style loop template, arbitrary channel i): name=$PnN, label=$PnS, range=[0,R-1], resolution=int(R), amplification '
+                   '= $PnE with (a0!=0,a1=0)->(a0,1), voltage = $PnV else BD$WORD{12+i} iff CREATOR contains CellQuest Pro, gain = $PnG else '
+                   'CytekP{i:02d}G iff CREATOR contains FlowJoCollectorsEdition, unparseable -> None. _parse_time_string/_parse_date_string '
+                   'never raise. acquisition_time for D=1..3 channels (bounded in D only). float()/int()/strptime are partial uninterpreted '
+                   'functions, so the VALUE of a parsed time/date string (three time formats, four date formats) is checked by the bounded '
+                   'stand-in only; the per-channel clauses are proved on files without optional time keywords in the quick tier and on the '
+                   'full product in the thorough tier.',
+    'level_note': 'A-STR/A-LIB partial parsers; FCSFile summarised; value of parsed times: bounded only.',
+}
+
 NOT_APPLICABLE = {}
